@@ -19,7 +19,7 @@
 //!    unwinds with a panic, as the op says.
 //!  * the recording collectors share one id counter (ids of different collectors are disjoint) and one log.
 use std::cell::{Cell, RefCell};
-use std::collections::HashMap;
+use std::collections::{HashMap, HashSet};
 use std::future::Future;
 use std::io::{BufRead, Write};
 use std::panic::{self, AssertUnwindSafe};
@@ -68,6 +68,10 @@ struct Rec {
     metas: Mutex<HashMap<u64, &'static Metadata<'static>>>,
     local_next: AtomicU64,
     l2g: Mutex<HashMap<u64, u64>>,
+    /// alias collectors: id -> the id new_span returned for its span; span -> its aliases in order of issue; ids closed
+    roots: Mutex<HashMap<u64, u64>>,
+    aliases: Mutex<HashMap<u64, Vec<u64>>>,
+    closed: Mutex<HashSet<u64>>,
 }
 
 impl Rec {
@@ -80,10 +84,17 @@ impl Rec {
             metas: Mutex::new(HashMap::new()),
             local_next: AtomicU64::new(1),
             l2g: Mutex::new(HashMap::new()),
+            roots: Mutex::new(HashMap::new()),
+            aliases: Mutex::new(HashMap::new()),
+            closed: Mutex::new(HashSet::new()),
         }
     }
     fn call(&self, tag: u64, id: u64, x: u64, y: u64) {
         self.shared.push([self.name, TID.with(|t| t.get()), tag, id, x, y]);
+    }
+    /// the span an id denotes (the id itself for a collector that hands out no aliases)
+    fn root(&self, id: u64) -> u64 {
+        self.roots.lock().unwrap().get(&id).copied().unwrap_or(id)
     }
     /// the global sequence number of an id this collector handed out (the id itself when ids are shared)
     fn g(&self, id: u64) -> u64 {
@@ -124,6 +135,10 @@ impl Collect for Rec {
             (2, if self.shared.own_ids { 0 } else { attrs.parent().map(|p| p.into_u64()).unwrap_or(0) })
         };
         self.metas.lock().unwrap().insert(id, attrs.metadata());
+        if self.per_handle {
+            self.roots.lock().unwrap().insert(id, id);
+            self.aliases.lock().unwrap().insert(id, vec![id]);
+        }
         self.call(1, global, x, y);
         Id::from_u64(id)
     }
@@ -134,6 +149,9 @@ impl Collect for Rec {
             if let Some(m) = meta {
                 self.metas.lock().unwrap().insert(new, m);
             }
+            let root = self.root(id.into_u64());
+            self.roots.lock().unwrap().insert(new, root);
+            self.aliases.lock().unwrap().entry(root).or_default().push(new);
             self.call(2, self.g(id.into_u64()), global, 0);
             Id::from_u64(new)
         } else {
@@ -143,19 +161,24 @@ impl Collect for Rec {
     }
     fn try_close(&self, id: Id) -> bool {
         self.call(3, self.g(id.into_u64()), 0, 0);
+        if self.per_handle {
+            self.closed.lock().unwrap().insert(id.into_u64());
+        }
         false
     }
     fn enter(&self, id: &Id) {
         self.call(4, self.g(id.into_u64()), 0, 0);
         let t = TID.with(|t| t.get());
-        self.stacks.lock().unwrap().entry(t).or_default().push(id.into_u64());
+        // the stack is a stack of SPANS (for a collector without aliases a span is its id)
+        self.stacks.lock().unwrap().entry(t).or_default().push(self.root(id.into_u64()));
     }
     fn exit(&self, id: &Id) {
         self.call(5, self.g(id.into_u64()), 0, 0);
         let t = TID.with(|t| t.get());
         let mut st = self.stacks.lock().unwrap();
         let v = st.entry(t).or_default();
-        if let Some(p) = v.iter().rposition(|x| *x == id.into_u64()) {
+        let span = self.root(id.into_u64());
+        if let Some(p) = v.iter().rposition(|x| *x == span) {
             v.remove(p);
         }
     }
@@ -167,12 +190,19 @@ impl Collect for Rec {
     }
     fn event(&self, _: &tracing::Event<'_>) {}
     fn current_span(&self) -> Current {
-        if self.per_handle {
-            return Current::unknown();
-        }
         let t = TID.with(|t| t.get());
         let st = self.stacks.lock().unwrap();
-        match st.get(&t).and_then(|v| v.last().copied()) {
+        let top = st.get(&t).and_then(|v| v.last().copied());
+        // an alias collector names the current span by the newest alias it issued for it and has not seen closed
+        let top = match top {
+            Some(span) if self.per_handle => {
+                let closed = self.closed.lock().unwrap();
+                let al = self.aliases.lock().unwrap();
+                Some(al.get(&span).and_then(|v| v.iter().rev().find(|a| !closed.contains(a)).copied()).unwrap_or(span))
+            }
+            other => other,
+        };
+        match top {
             Some(id) => match self.metas.lock().unwrap().get(&id) {
                 Some(m) => Current::new(Id::from_u64(id), m),
                 None => Current::none(),
@@ -218,14 +248,20 @@ impl Future for Inner {
         let ctx = CTX.with(|c| c.borrow().clone()).expect("poll outside a worker");
         ctx.ack(Ack::Done(0, 0, 0));
         match run_loop(&ctx) {
-            Exit::Poll(0) => Poll::Pending,
-            Exit::Poll(1) => Poll::Ready(()),
-            Exit::Poll(_) => panic::resume_unwind(Box::new(Unwind)),
+            Exit::Poll(r, ls) => {
+                // the holders this body owns as locals: dropped when it returns — or by the unwind
+                let _locals: Vec<Local> = ls.iter().map(|n| take_local(&ctx, *n)).collect();
+                match r {
+                    0 => Poll::Pending,
+                    1 => Poll::Ready(()),
+                    _ => panic::resume_unwind(Box::new(Unwind)),
+                }
+            }
             Exit::Teardown => {
                 ctx.teardown.set(true);
                 Poll::Pending
             }
-            Exit::Scope(_) => unreachable!("controller validates frames"),
+            Exit::Scope(..) => unreachable!("controller validates frames"),
         }
     }
 }
@@ -508,9 +544,26 @@ enum Ack {
     Fatal(String),
 }
 enum Exit {
-    Scope(bool),
-    Poll(u64),
+    Scope(bool, Vec<u64>), // unwind?, the holders the closure owns as locals
+    Poll(u64, Vec<u64>),
     Teardown,
+}
+
+/// A holder moved into a stack frame: dropped when that frame returns or unwinds.
+#[allow(dead_code)]
+enum Local {
+    Handle(Box<Span>),
+    Owned(Box<EnteredSpan>),
+    Fut(Box<dyn Fut>),
+}
+
+fn take_local(ctx: &WorkerCtx, n: u64) -> Local {
+    match ctx.case.take(n) {
+        Holder::Handle(b) => Local::Handle(b),
+        Holder::Owned(..) => Local::Owned(ctx.owned.borrow_mut().remove(&n).expect("validated: owned by this thread")),
+        Holder::Fut(f) => Local::Fut(f),
+        Holder::Polling => panic!("validated: not polling"),
+    }
 }
 struct Unwind;
 
@@ -686,10 +739,14 @@ fn run_loop(ctx: &std::rc::Rc<WorkerCtx>) -> Exit {
                     sp.in_scope(|| {
                         c2.ack(Ack::Done(0, 0, 0));
                         match run_loop(&c2) {
-                            Exit::Scope(false) => {}
-                            Exit::Scope(true) => panic::resume_unwind(Box::new(Unwind)),
+                            Exit::Scope(unwind, ls) => {
+                                let _locals: Vec<Local> = ls.iter().map(|n| take_local(&c2, *n)).collect();
+                                if unwind {
+                                    panic::resume_unwind(Box::new(Unwind));
+                                }
+                            }
                             Exit::Teardown => c2.teardown.set(true),
-                            Exit::Poll(_) => unreachable!("controller validates frames"),
+                            Exit::Poll(..) => unreachable!("controller validates frames"),
                         }
                     })
                 }));
@@ -703,7 +760,9 @@ fn run_loop(ctx: &std::rc::Rc<WorkerCtx>) -> Exit {
                 }
                 ctx.ack(Ack::Done(0, 0, 0)); // the ScopeEnd op is complete only now
             }
-            10 => return Exit::Scope(a != 0),
+            10 => return Exit::Scope(a != 0, Vec::new()),
+            27 => return Exit::Scope(a != 0, [c, d, e][..(b.min(3) as usize)].to_vec()),
+            28 => return Exit::Poll(a, [c, d, e][..(b.min(3) as usize)].to_vec()),
             11 => {
                 // a chain r.record(..).record(..)...: b = length (0 = one call on the existing field), bit i of c = the
                 // i-th call names a field the span has
@@ -777,7 +836,7 @@ fn run_loop(ctx: &std::rc::Rc<WorkerCtx>) -> Exit {
                 }
                 ctx.ack(Ack::Done(0, 0, 0)); // the PollEnd op
             }
-            15 => return Exit::Poll(a),
+            15 => return Exit::Poll(a, Vec::new()),
             16 => {
                 let f = match case.take(a) {
                     Holder::Fut(f) => f,
@@ -867,6 +926,33 @@ fn run_loop(ctx: &std::rc::Rc<WorkerCtx>) -> Exit {
                 let g = f.wrap(d);
                 case.tables.lock().unwrap().holders.insert(a, Holder::Fut(g));
                 ctx.ack(Ack::Done(0, 0, 0));
+            }
+            26 => {
+                // the holder is a local of a frame that unwinds (a contained panic): dropped while the thread is panicking
+                let dr = idp(unsafe { &*case.span_ptr(a) });
+                let local = take_local(ctx, a);
+                let r = panic::catch_unwind(AssertUnwindSafe(move || {
+                    let _local = local;
+                    panic::resume_unwind(Box::new(Unwind));
+                }));
+                if let Err(p) = r {
+                    if !p.is::<Unwind>() {
+                        panic::resume_unwind(p);
+                    }
+                }
+                ctx.ack(Ack::Done(0, dr, 0));
+            }
+            29 => {
+                // fut.in_current_span()
+                let inner = Inner { name: a, shared: case.shared.clone() };
+                let f: Box<dyn Fut> = if b == 0 {
+                    Box::new(tracing::Instrument::in_current_span(inner))
+                } else {
+                    Box::new(tracing_futures::Instrument::in_current_span(inner))
+                };
+                let r = idp(f.span());
+                case.tables.lock().unwrap().holders.insert(a, Holder::Fut(f));
+                ctx.ack(Ack::Done(r, 0, 0));
             }
             24 => {
                 // drop(r.clone()) with `.clone()` written on the holder itself: on an EnteredSpan guard method resolution
@@ -1033,6 +1119,23 @@ impl OwnSt {
     fn find_guard(&self, g: u64) -> Option<usize> {
         self.ents.iter().rposition(|e| e.k == EK::Guard(g))
     }
+    /// drop holder n on thread t (a plain handle, an EnteredSpan of that thread, an unborrowed future)
+    fn drop_one(&mut self, t: u64, a: u64) -> bool {
+        if !self.live(a) {
+            return false;
+        }
+        let (owned_here, empty) = {
+            let on = self.on(a);
+            (on.len() == 1 && on[0].k == EK::Owned && on[0].t == t, on.is_empty())
+        };
+        if self.is_handle(a) && owned_here {
+            self.ents.retain(|x| x.h != a);
+        } else if !empty {
+            return false;
+        }
+        self.kinds.remove(&a);
+        true
+    }
     /// Validate and apply.  false = rustc would reject the program here.
     fn apply(&mut self, op: &[u64]) -> bool {
         let (t, code, a, b, c, d, e) = (op[0], op[1], op[2], op[3], op[4], op[5], op[6]);
@@ -1186,6 +1289,30 @@ impl OwnSt {
                 if !(self.readable(a) && !self.live(b)) {
                     return false;
                 }
+            }
+            26 => return self.drop_one(t, a),
+            27 | 28 => {
+                if b > 3 {
+                    return false;
+                }
+                for n in [c, d, e].iter().take(b as usize) {
+                    if !self.drop_one(t, *n) {
+                        return false;
+                    }
+                }
+                let want = if code == 27 { EK::Scope } else { EK::Poll };
+                match self.top_frame(t) {
+                    Some(i) if self.ents[i].k == want => {
+                        self.ents.remove(i);
+                    }
+                    _ => return false,
+                }
+            }
+            29 => {
+                if self.live(a) {
+                    return false;
+                }
+                self.kinds.insert(a, 1);
             }
             25 => {
                 if !(self.is_handle(a) && self.free(a) && self.readable(b) && a != b && !self.live(c)) {
